@@ -1,6 +1,8 @@
 package main
 
 import (
+	"strconv"
+	"time"
 	"regexp"
 	"strings"
 
@@ -22,16 +24,39 @@ var strRe = regexp.MustCompile(`\(str ([0-9a-f-]+) ([0-9a-f-]+)\)`)
 func stripQuoted(s string) string { return strRe.ReplaceAllString(s, "(str $2)") }
 
 func parseExprSafe(src string) (n ast.Node, err error, panicked interface{}) {
-	defer func() {
-		if e := recover(); e != nil {
-			panicked = e
-		}
-	}()
-	n, err = parse.Expr(src)
+	if c := guarded(5*time.Second, func() { n, err = parse.Expr(src) }); c != "" {
+		panicked = c
+	}
 	return
 }
 
+// parsePrintSafe parses a print command (with directives) in a minimal template and returns its node.
+func parsePrintSafe(src string) (*ast.PrintNode, error) {
+	f, err := soyFileSafe("p.soy", "{namespace a}\n{template .t}\n"+src+"\n{/template}")
+	if err != nil {
+		return nil, err
+	}
+	for _, n := range f.Body {
+		if tn, ok := n.(*ast.TemplateNode); ok {
+			for _, c := range tn.Body.Nodes {
+				if p, ok := c.(*ast.PrintNode); ok {
+					return p, nil
+				}
+			}
+		}
+	}
+	return nil, errHang
+}
+
 func init() {
+	implOps["printcmd"] = func(f []string) string {
+		src, _ := unhx(f[0])
+		p, err := parsePrintSafe(string(src))
+		if err != nil {
+			return "ERR"
+		}
+		return "OK " + hxs(p.String())
+	}
 	implOps["astecho"] = func(f []string) string { return "OK " + f[1] }
 	// print: fields = hex source, tree (of that source, as parsed by the generator).
 	implOps["exprstr"] = func(f []string) string {
@@ -52,6 +77,24 @@ func init() {
 		Gen: genC17,
 		Oracle: func(c *Case, impl string) *Viol {
 			if c.Class == "echo" {
+				return nil
+			}
+			if c.Class == "printcmd" {
+				f := strings.Split(c.Req, "\t")
+				src, _ := unhx(f[1])
+				p1, err := parsePrintSafe(string(src))
+				if err != nil {
+					return nil
+				}
+				printed := p1.String()
+				p2, err := parsePrintSafe(printed)
+				if err != nil {
+					return &Viol{Key: "roundtrip-print:" + string(src), What: "printed print command does not parse: " + printed, Want: "parses"}
+				}
+				a, b := stripQuoted(stripPos(sxCmd(p1))), stripQuoted(stripPos(sxCmd(p2)))
+				if a != b {
+					return &Viol{Key: "roundtrip-print:" + string(src), What: "printed print command " + printed + " parses to a different tree", Want: a}
+				}
 				return nil
 			}
 			// property oracle, independent of the model: print -> parse gives the same tree
@@ -80,8 +123,9 @@ var haveF64 = true
 
 func genC17(g *G) {
 	n := g.N(6000, 120000)
-	eg := &exprGen{r: g.R, funcs: true, redundantParens: 10, illTyped: 10}
+	eg := &exprGen{r: g.R, funcs: true, redundantParens: 10, illTyped: 10, rawBytes: 8}
 	hand := []string{
+		"['\xff': 1]", "['\xff\\'x': 1, '\xc3': 2]", "['\xe2\x82\\n': '\xff']", "['a\\nb\xf0\x9f': [1]]", "'\xff\\n' + '\xc3'",
 		"(1 + 2) * 3", "1 - (2 - 3)", "-(5)", "--5", "-(-$x)", "not (true and false)", "1.0", "1e6", "-0.0",
 		"['a\\'b': 1, 'c\\\\': [2, 3]]", "(true ? 1 : 2) ?: 3", "true ?: (false ? 1 : 2)", "(true ? 1 : 2) ? 3 : 4",
 		"true ? (false ? 1 : 2) : 3", "true ? 1 : false ? 2 : 3", "$a ? [1] : $b.c", "$a ? $b?.c : 2", "1 < (2 == 2)",
@@ -107,6 +151,50 @@ func genC17(g *G) {
 	}
 	for _, h := range hand {
 		add(h)
+	}
+	// print commands with directives (implicit and explicit print, 0-3 directives, 0-3 arguments each,
+	// arguments that are ternaries / negative numbers / strings with quotes)
+	dirNames := []string{"truncate", "insertWordBreaks", "escapeHtml", "noAutoescape", "id", "changeNewlineToBr", "escapeUri", "pad"}
+	np := g.N(1500, 30000)
+	for i := 0; i < np; i++ {
+		var b strings.Builder
+		if g.R.Intn(3) == 0 {
+			b.WriteString("{print ")
+		} else {
+			b.WriteString("{")
+		}
+		b.WriteString(eg.expr(1+g.R.Intn(2), tAny))
+		for d := g.R.Intn(4); d > 0; d-- {
+			b.WriteString("|" + dirNames[g.R.Intn(len(dirNames))])
+			na := g.R.Intn(4)
+			for a := 0; a < na; a++ {
+				if a == 0 {
+					b.WriteString(":")
+				} else {
+					b.WriteString(",")
+				}
+				switch g.R.Intn(5) {
+				case 0:
+					b.WriteString(eg.expr(1, tBool) + " ? " + eg.atom(tInt) + " : " + eg.atom(tInt))
+				case 1:
+					b.WriteString("-" + strconv.Itoa(1+g.R.Intn(9)))
+				default:
+					b.WriteString(eg.expr(1, tAny))
+				}
+			}
+		}
+		b.WriteString("}")
+		src := b.String()
+		if strings.ContainsAny(src, "\n") {
+			continue
+		}
+		p, err := parsePrintSafe(src)
+		if err != nil {
+			unparsable++
+			continue
+		}
+		tree := sxCmd(p)
+		g.Add(Case{Req: req("printcmd", hxs(src), tree), NT: strings.Contains(src, "|"), Class: "printcmd", Note: src, NoModel: strings.Contains(tree, "(float ") && !haveF64})
 	}
 	for i := 0; i < n; i++ {
 		add(eg.expr(1+g.R.Intn(4), tAny))
